@@ -75,8 +75,10 @@ theorem shim_answers_without_nil_deref (c : Cfg) (env : NativeEnv) (s : BState) 
     cases this
 
 /-- … and whenever a native answer is a panic at all, the request had passed validation and the panic is the
-backend model's own answer (`ScanRes.panic`: `Decode` / border adjustment on what the store holds — excluded for stores
-written by the backend by `C20Requests.stored_keys_decode` and C10/C13) to that very call. -/
+backend model's own answer (`ScanRes.panic`) to that very call. Since /repo 5ace897 no key and no partition border
+makes `Decode` index out of range (`C10.decode_never_panics`, `C20Requests.list_never_panics`); the only panic left in
+the backend model is a compaction's TTL pass on a revision record shorter than 8 bytes, which the backend never
+writes. -/
 theorem shim_adds_no_panic (c : Cfg) (env : NativeEnv) (s : BState) (r : NativeReq)
     (h : (nativeStep c env s r).1.panics = true) :
     validate r = none ∧ r ≠ .update none ∧ (backendStep c env (preState env s r) r).1.panics = true := by
@@ -402,10 +404,20 @@ example : validate (.get [47, 97] 0) = none ∧ (NativeReq.get [47, 97] 0).isWri
 example : (nativeStep exCfg followerWithLeader exState (.get [47, 97] 0)).2.committed = 1500 := by decide
 -- refused_only_for_a_reason / shim_adds_no_panic: premises occur
 example : ∃ x, (nativeStep exCfg follower exState (.delete [47] 0)).1 = .refused x := ⟨_, rfl⟩
-/-- a backend-model panic does pass through unchanged (an internal key shorter than the header, planted in the store:
-`Decode` on it is the model's `ScanRes.panic`) — the premise of `shim_adds_no_panic` is satisfiable -/
-def badStore : BState := { exState with store := [([87, 251, 128, 139, 2], [1])] }
-example : (nativeStep exCfg {} badStore (.range [1] [255] 0 0)).1.panics = true := by decide
+/-- a backend-model panic does pass through unchanged — the premise of `shim_adds_no_panic` is satisfiable. Since
+/repo 5ace897 `Decode` reports a short key instead of indexing out of range, so a short key planted in the store no
+longer does it (`short_key_no_longer_panics`); what is left in the backend model is the TTL pass of a compaction on an
+engine without native TTL reading the 8-byte revision of an Event's revision record (`binary.BigEndian.Uint64` on a
+value shorter than 8 bytes — a value the backend never writes: C10 `parseRevision_*`). -/
+def ttlCfg : Cfg := { q := Quirks.tikv, pfx := [47, 114], ttl := 1 }
+def badStore : BState :=
+  { ring := Ring.new 4, dealt := 1000, committed := 1000, marks := [(900, 0)], now := 10,
+    store := [(encode [47, 114, 47, 101, 118, 101, 110, 116, 115, 47, 120] 0, [1])] }
+example : (nativeStep ttlCfg {} badStore (.compact 950)).1.panics = true := by decide
+/-- the store of the former witness: an internal key shorter than the header -/
+def shortKeyStore : BState := { exState with store := [([87, 251, 128, 139, 2], [1])] }
+theorem short_key_no_longer_panics :
+    (nativeStep exCfg {} shortKeyStore (.range [1] [255] 0 0)).1.panics = false := by decide
 -- native_header_ge_data: a read that carries data, a failed guarded update that carries the current kv
 def afterCreate : BState := (nativeStep exCfg {} exState (.create [47, 97] [1])).2
 example : (nativeStep exCfg {} afterCreate (.get [47, 97] 0)).1 = .get 1001 (some ([47, 97], [1], 1001)) := rfl
